@@ -144,7 +144,15 @@ func (model *ProtModel) InitModel(aafreqs []float64) error {
 	for i, b := range model.eigen.Values(nil) {
 		model.eval[i] = real(b)
 	}
-	model.reigenvect.Apply(func(i, j int, val float64) float64 { return real(u.At(i, j)) }, model.reigenvect)
+	// The eigen values of a reversible model are real, but a repeated one may come back, because of
+	// rounding, as a conjugate pair (a+ib, a-ib) with vectors (x+iy, x-iy): x and y are then used
+	cvals := model.eigen.Values(nil)
+	model.reigenvect.Apply(func(i, j int, val float64) float64 {
+		if imag(cvals[j]) < 0 && j > 0 {
+			return imag(u.At(i, j-1))
+		}
+		return real(u.At(i, j))
+	}, model.reigenvect)
 	model.leigenvect.Inverse(model.reigenvect)
 
 	return nil
